@@ -51,6 +51,18 @@ pub struct BasicHeader {
     pub sequence_number: String,
 }
 
+/// A logical terminal address in the JSON form: exactly 12 characters, padded with `X` or cut.
+/// Cut on a character boundary: an address read from JSON need not be ASCII and must not panic.
+fn normalize_address_12(address: &str) -> String {
+    if address.len() > 12 {
+        address.chars().take(12).collect()
+    } else if address.len() < 12 {
+        format!("{:X<12}", address)
+    } else {
+        address.to_string()
+    }
+}
+
 // Custom Serialize/Deserialize to normalize BIC padding
 impl serde::Serialize for BasicHeader {
     fn serialize<S>(&self, serializer: S) -> std::result::Result<S::Ok, S::Error>
@@ -60,13 +72,7 @@ impl serde::Serialize for BasicHeader {
         use serde::ser::SerializeStruct;
 
         // Normalize logical_terminal to exactly 12 characters for JSON
-        let normalized_logical_terminal = if self.logical_terminal.len() > 12 {
-            self.logical_terminal[..12].to_string()
-        } else if self.logical_terminal.len() < 12 {
-            format!("{:X<12}", self.logical_terminal)
-        } else {
-            self.logical_terminal.clone()
-        };
+        let normalized_logical_terminal = normalize_address_12(&self.logical_terminal);
 
         let mut state = serializer.serialize_struct("BasicHeader", 5)?;
         state.serialize_field("application_id", &self.application_id)?;
@@ -97,13 +103,7 @@ impl<'de> serde::Deserialize<'de> for BasicHeader {
         let helper = BasicHeaderHelper::deserialize(deserializer)?;
 
         // Normalize logical_terminal to exactly 12 characters
-        let normalized_logical_terminal = if helper.logical_terminal.len() > 12 {
-            helper.logical_terminal[..12].to_string()
-        } else if helper.logical_terminal.len() < 12 {
-            format!("{:X<12}", helper.logical_terminal)
-        } else {
-            helper.logical_terminal.clone()
-        };
+        let normalized_logical_terminal = normalize_address_12(&helper.logical_terminal);
 
         // Use the original sender_bic from the JSON
         // It should match what's in the first part of logical_terminal
@@ -261,13 +261,7 @@ impl serde::Serialize for InputApplicationHeader {
         use serde::ser::SerializeStruct;
 
         // Normalize destination_address to exactly 12 characters for JSON
-        let normalized_destination_address = if self.destination_address.len() > 12 {
-            self.destination_address[..12].to_string()
-        } else if self.destination_address.len() < 12 {
-            format!("{:X<12}", self.destination_address)
-        } else {
-            self.destination_address.clone()
-        };
+        let normalized_destination_address = normalize_address_12(&self.destination_address);
 
         let field_count = 4
             + self.delivery_monitoring.is_some() as usize
@@ -305,13 +299,7 @@ impl<'de> serde::Deserialize<'de> for InputApplicationHeader {
         let helper = InputApplicationHeaderHelper::deserialize(deserializer)?;
 
         // Normalize destination_address to exactly 12 characters
-        let normalized_destination_address = if helper.destination_address.len() > 12 {
-            helper.destination_address[..12].to_string()
-        } else if helper.destination_address.len() < 12 {
-            format!("{:X<12}", helper.destination_address)
-        } else {
-            helper.destination_address.clone()
-        };
+        let normalized_destination_address = normalize_address_12(&helper.destination_address);
 
         // Use the original receiver_bic from the JSON
         // It should match what's in the first part of destination_address
